@@ -987,3 +987,128 @@ def entry_kinds():
             k = "discipline"
         out[n] = k
     return out
+
+
+# =========================================================================== grammar life moments (operation sequences)
+# Read-only queries fill internal caches (schema, validator, model); edits may or may not invalidate them.  A grammar
+# must round trip after any interleaving of the two.
+GRAMMAR_QUERIES = ("read_schema", "to_json", "validate", "to_simple", "read_names", "copy")
+GRAMMAR_EDITS = ("req_remove", "req_discard", "req_add", "req_clear", "defaults_set", "defaults_del", "update_names",
+                 "update_types", "rename", "restrict")
+GRAMMAR_EDITS_SAFE_IN_DISCIPLINE = ("req_remove", "req_discard", "req_add", "req_clear", "defaults_set", "defaults_del",
+                                    "update_names", "update_types")
+
+# entries whose input / output grammars get operation sequences before the discipline is serialized
+GRAMMAR_OPS_ENTRIES = ("GenDisc:grammar=JSON", "GenDisc:grammar=SIMPLE", "GenDisc:grammar=SIMPLER", "GenDisc:grammar=PYDANTIC",
+                       "GenDisc:namespaced", "Sellar1", "AnalyticDiscipline", "AutoPyDiscipline", "MDOChain",
+                       "MDAGaussSeidel:gen3")
+
+DIRECTED_GRAMMAR_OPS = (
+    [["in", "read_schema", 0], ["in", "req_remove", 1]],
+    [["in", "to_json", 0], ["in", "req_clear", 0]],
+    [["in", "read_schema", 0], ["in", "req_discard", 0], ["in", "defaults_del", 0]],
+    [["in", "validate", 0], ["in", "req_remove", 0], ["in", "read_schema", 0], ["in", "req_add", 0]],
+    [["out", "read_schema", 0], ["out", "req_discard", 0], ["in", "read_schema", 0], ["in", "update_names", 2], ["in", "req_discard", 5]],
+    [["in", "read_schema", 0], ["in", "rename", 0], ["in", "req_remove", 0], ["in", "restrict", 1]],
+)
+
+
+def random_grammar_ops(rng, in_discipline):
+    """A short random operation sequence ``[[which, op, k], ...]`` (JSON-able; ``k`` selects the name)."""
+    edits = GRAMMAR_EDITS_SAFE_IN_DISCIPLINE if in_discipline else GRAMMAR_EDITS
+    n = int(rng.integers(1, 7))
+    ops = []
+    for _ in range(n):
+        which = "in" if (not in_discipline or rng.random() < 0.75) else "out"
+        if rng.random() < 0.45:
+            op = str(rng.choice(GRAMMAR_QUERIES))
+        else:
+            op = str(rng.choice(edits))
+        ops.append([which, op, int(rng.integers(0, 6))])
+    return ops
+
+
+def grammar_probe_value(g, name):
+    base = name.split(":")[-1]
+    fixed = {"a": 2.5, "b": np.array([1.0, 2.0]), "c": "text", "n": 3, "flag": True}
+    if base in fixed:
+        return fixed[base]
+    try:
+        if name in g.defaults:
+            v = g.defaults[name]
+            return np.array(v, copy=True) if isinstance(v, np.ndarray) else v
+    except Exception:
+        pass
+    return np.array([1.0])
+
+
+def apply_grammar_op(g, op, k):
+    """Apply one operation to grammar ``g``; return True when it went through (an illegal edit is simply skipped)."""
+    names = sorted(g.names)
+    name = names[k % len(names)] if names else None
+    try:
+        if op == "read_schema":
+            g.schema  # noqa: B018
+        elif op == "to_json":
+            g.to_json()
+        elif op == "validate":
+            g.validate({n: grammar_probe_value(g, n) for n in names}, raise_exception=False)
+        elif op == "to_simple":
+            g.to_simple_grammar()
+        elif op == "read_names":
+            list(g.names), sorted(g.required_names), dict(g.defaults)
+        elif op == "copy":
+            g.copy()
+        elif op == "req_remove":
+            g.required_names.remove(name)
+        elif op == "req_discard":
+            g.required_names.discard(name)
+        elif op == "req_add":
+            g.required_names.add(name)
+        elif op == "req_clear":
+            g.required_names.clear()
+        elif op == "defaults_set":
+            g.defaults[name] = grammar_probe_value(g, name)
+        elif op == "defaults_del":
+            del g.defaults[name]
+        elif op == "update_names":
+            g.update_from_names([f"extra{k}"])
+            g.required_names.discard(f"extra{k}")
+        elif op == "update_types":
+            g.update_from_types({f"typed{k}": float})
+            if k % 2:
+                g.required_names.discard(f"typed{k}")
+        elif op == "rename":
+            g.rename_element(name, f"{name}_r")
+        elif op == "restrict":
+            keep = [n for i, n in enumerate(names) if i != k % len(names)] or names
+            g.restrict_to(keep)
+        else:
+            raise ValueError(op)
+    except ValueError:
+        if op not in GRAMMAR_QUERIES + GRAMMAR_EDITS:
+            raise
+        return False
+    except Exception:
+        return False
+    return True
+
+
+def apply_grammar_ops(grammars, ops):
+    """``grammars = {"in": g_in, "out": g_out}`` (standalone grammar: both keys give the same object)."""
+    done = 0
+    for which, op, k in ops:
+        g = grammars.get(which) or grammars["in"]
+        done += bool(apply_grammar_op(g, op, k))
+    return done
+
+
+def has_cached_read_then_required_edit(ops):
+    """Whether the sequence reads a cache filling query and later removes a required name (workload reach)."""
+    seen = set()
+    for which, op, _ in ops:
+        if op in ("read_schema", "to_json", "validate", "to_simple", "copy"):
+            seen.add(which)
+        if op in ("req_remove", "req_discard", "req_clear") and which in seen:
+            return True
+    return False
